@@ -625,6 +625,7 @@ theorem Inv2_step {O : Oracle} {c : Conf} {s : State} {op : Op} (h : Inv2 c s)
       · next s1 hr => exact Inv2_store (rmLease_inv2 _ _ _ h0 hr)
   | sleep d => exact Inv2_congr h0 rfl rfl rfl rfl rfl rfl
   | restart => exact restart_inv2 h0.1
+  | resetLeases => exact ⟨resetAll_inv h0.1, by intro l hl; simp [resetAll, State.store, State.init] at hl⟩
   | reorder d => exact ⟨Inv_reorder d h0.1, HC_congr h0.2 (reorderDisk_spec d _).1 (reorderDisk_spec d _).2.2.2.1⟩
 
 /-- No step of the history is an instance of R3. -/
